@@ -69,6 +69,8 @@ def from_plan(shape, feats, i, for_codec=True):
         # markers INSIDE tuple members, at the front / in the middle / twice, each followed by members of different widths
         fs.append(field(nm("pt"), tup(U8, m, U16, U32)))
         fs.append(field(nm("pu"), opt(tup(m, BOOL, U64, STR, m, U16))))
+        # containers whose EVERY argument is a marker are no markers: they are written (presence byte, length prefix) and listed
+        fs.append(field(nm("po"), opt(m))); fs.append(field(nm("pv"), vec(m))); fs.append(field(nm("pq"), T2("result", m, ph(BOOL))))
     if "generic" in F: fs.append(field(nm("t"), tup(P("T"), arr(P("T"), 3))))
     if "phantom_arg" in F: fs.append(field(nm("w"), vec(P("W"))))
     if "skipped_param" in F and "phantom" not in F: fs.append(field(nm("u"), ph(P("U"))))
@@ -315,7 +317,9 @@ def decl_src0(d, with_codec):
     else:
         for k, a in enumerate(attrs):            # split over several attributes, as users do
             s += "#[scale_info(%s)]\n" % a
-    g = ["'" + l for l in d["lifetimes"]] + [p["name"] for p in d["tparams"]] + ["const %s: usize" % c for c in d.get("consts", [])]
+    # (a const parameter carries a DEFAULT: the instantiation that names it and the one that relies on the default are
+    # two types, see program())
+    g = ["'" + l for l in d["lifetimes"]] + [p["name"] for p in d["tparams"]] + ["const %s: usize = 2" % c for c in d.get("consts", [])]
     gs = "<" + ", ".join(g) + ">" if g else ""
     if d["kind"] == "struct":
         s += "pub struct %s%s%s%s\n" % (d["name"], gs, body_src(d["shape"], d["fields"], d, "", True, with_codec), ";" if d["shape"] != "named" else "")
@@ -459,6 +463,9 @@ def program(decls, seed, with_values, nvals):
         ft = "vec![" + ", ".join("vec![" + ", ".join(exp(f) for f in g) + "] as Vec<String>" for g in groups) + "]"
         pt = "vec![" + ", ".join("dv::t::<%s>()" % subst[p["name"]] for p in d["tparams"]) + "] as Vec<String>"
         main.append("    o.derived::<%s>(%d, %s, %s, module_path!());" % (ty, d["id"], ft, pt))
+        if d.get("consts"):      # the same declaration instantiated with the default constant: another type, registered next to the first
+            inst0 = ["'static"] * len(d["lifetimes"]) + [subst[p["name"]] for p in d["tparams"]]
+            main.append("    o.pair::<%s, %s>(%d);" % (ty, full + ("<" + ", ".join(inst0) + ">" if inst0 else ""), d["id"]))
         if vi: main.append("    o.values::<%s>(%d);" % (ty, d["id"]))
     main += ["    o.done();", "}"]
     return "\n".join(out + main) + "\n"
